@@ -3,6 +3,7 @@ from __future__ import annotations
 
 import ast
 import os
+import re
 
 from .. import cfg, core
 from ..core import nun, pmod, un
@@ -147,7 +148,7 @@ def _replace(ctx) -> None:
 
 def _recon(ctx) -> None:
     dm, tm, dam = pmod("datetime"), pmod("time"), pmod("date")
-    sites = recon.sites_in(dm, ["DateTime.date", "DateTime.time", "DateTime.int_timestamp", "DateTime.naive"]) \
+    sites = recon.sites_in(dm, ["DateTime.date", "DateTime.time", "DateTime.int_timestamp", "DateTime.naive", "DateTime.__sub__", "DateTime.__rsub__"]) \
         + recon.sites_in(tm, ["Time.replace", "Time.instance"]) \
         + recon.sites_in(dam, ["Date.today", "Date.fromtimestamp", "Date.fromordinal"]) \
         + recon.sites_in(pmod("interval"), ["Interval.__new__"])       # subtraction of datetimes
@@ -185,6 +186,84 @@ def _eq_hash_str(ctx) -> None:
     ctx.ob("EQHASH.key", "Interval", ok, "Interval.__eq__ and __hash__ must use the same key (start, end, absolute)", iv.loc(eq))
 
 
+def _combine(ctx) -> None:
+    """datetime.combine(date, time, tzinfo=<time's own>): an explicit tzinfo replaces the time's, an omitted one keeps
+    it.  The override's parameter defaults to None, so the native constructor may only receive it when it is not None."""
+    from .. import cfg
+    dm = pmod("datetime")
+    fn = dm.func("DateTime.combine")
+    ps = core.params(fn)
+    if len(ps) != 3:
+        ctx.unverified("CTOR.combine", "DateTime.combine", f"parameters {ps}", dm.loc(fn))
+        return
+    d, t, tz = ps
+    nat = f"datetime.datetime.combine({d}, {t})"
+    given = {f"{nat}.replace(tzinfo={tz})", f"datetime.datetime.combine({d}, {t}, {tz})", f"datetime.datetime.combine({d}, {t}, tzinfo={tz})"}
+    for p in cfg.paths(fn):
+        ex = p.exit()
+        if ex[1] != "return":
+            continue
+        e = core.strip_casts(ex[2].value)
+        if not (isinstance(e, ast.Call) and nun(e.func) in ("cls.instance", "cls") and e.args):
+            ctx.unverified("CTOR.combine", "DateTime.combine", f"returns `{nun(e)[:80]}`", dm.loc(ex[2]))
+            continue
+        val = nun(core.strip_casts(cfg.subst_path(p, e.args[0], set(ps))))
+        has = p.holds(f"{tz} is not None")
+        if has is None:
+            neg = p.holds(f"{tz} is None")
+            has = None if neg is None else (not neg)
+        cases = [("explicit tzinfo", given)] if has is True else [("tzinfo omitted", {nat})] if has is False else \
+            [("explicit tzinfo", given), ("tzinfo omitted", {nat})]
+        for label, okset in cases:
+            known = val in given | {nat}
+            if not known:
+                ctx.unverified("CTOR.combine", f"DateTime.combine/{label}", f"native value built as `{val[:90]}`", dm.loc(ex[2]))
+                continue
+            ctx.ob("CTOR.combine", f"DateTime.combine/{label}", val in okset,
+                   f"with {label} the native value is `{val}`; datetime.combine() attaches an explicit tzinfo whatever the time's own "
+                   f"one and keeps the time's tzinfo when none is given (passing None on strips it)", dm.loc(ex[2]))
+        kw = {k: nun(v) for k, v in core.kw(e).items()}
+        ctx.ob("CTOR.combine", "DateTime.combine/instance-tz", kw.get("tz") == tz, f"instance(..., tz={kw.get('tz')}); a naive combination stays naive "
+               f"only when the (None) tzinfo argument is passed as tz", dm.loc(ex[2]), nontrivial=False)
+
+
+def _format_protocol(ctx) -> None:
+    """format(x, spec): a spec containing a strftime directive anywhere is answered by strftime like the native object,
+    the empty spec by str()"""
+    from .. import cfg
+    mm = pmod("mixins.default")
+    fn = mm.func("FormattableMixin.__format__")
+    sp = core.params(fn)[0]
+    good = {f"'%' in {sp}", f"{sp}.find('%') >= 0", f"{sp}.find('%') != -1", f"{sp}.count('%')", f"{sp}.count('%') > 0"}
+    positional = re.compile(rf"{re.escape(sp)}\.(startswith|endswith|index|rfind|rindex)\(|{re.escape(sp)}\[")
+    seen = False
+    for p in cfg.paths(fn):
+        ex = p.exit()
+        if ex[1] != "return":
+            continue
+        v = nun(ex[2].value)
+        tests = [(t, pol) for t, pol in p.assumes()]
+        if v == f"self.strftime({sp})":
+            seen = True
+            pct = [t for t, pol in tests if "%" in t]
+            for t in pct:
+                if t in good:
+                    ctx.ob("FORMAT.route", "FormattableMixin.__format__/strftime", True, f"routed to strftime under `{t}`", mm.loc(ex[2]))
+                elif positional.search(t):
+                    ctx.ob("FORMAT.route", "FormattableMixin.__format__/strftime", False,
+                           f"strftime is chosen under `{t}`, which depends on where the '%' stands: 'on %d.%m.%Y' is a strftime spec for "
+                           f"the native object and must be for this one", mm.loc(ex[2]))
+                else:
+                    ctx.unverified("FORMAT.route", "FormattableMixin.__format__/strftime", f"routed under `{t}`", mm.loc(ex[2]))
+            if not pct:
+                ctx.unverified("FORMAT.route", "FormattableMixin.__format__/strftime", f"no '%' test on the path: {tests}", mm.loc(ex[2]))
+        elif v == "str(self)":
+            empt = any((t in (f"len({sp}) > 0", sp, f"{sp} != ''") and pol is False) or (t in (f"not {sp}", f"{sp} == ''", f"len({sp}) == 0") and pol) for t, pol in tests)
+            ctx.ob("FORMAT.route", "FormattableMixin.__format__/empty", empt, f"str(self) is returned under {tests}; must be exactly the empty spec", mm.loc(ex[2]))
+    if not seen:
+        ctx.ob("FORMAT.route", "FormattableMixin.__format__/strftime", False, "no path answers with self.strftime(spec)", mm.loc(fn))
+
+
 def run(ctx) -> None:
     ctx.explanation = EXPLANATION
     bad = core.check_bases()
@@ -194,6 +273,12 @@ def run(ctx) -> None:
     _replace(ctx)
     _recon(ctx)
     _eq_hash_str(ctx)
+    _combine(ctx)
+    _format_protocol(ctx)
+    ctx.expect_min("CTOR.combine", 2)
+    ctx.expect_min("FORMAT.route", 2)
+    from . import C05
+    C05._direction(ctx)         # 'subtraction of datetimes': operand normalisation and direction of __sub__/__rsub__
     from . import C04
     C04._siblings(ctx, pmod("date"), "Date", "_add_timedelta", "_subtract_timedelta", ["years", "months", "weeks", "days"])   # Date +/- timedelta like the native date
     ctx.expect_min("OVERRIDE.inventory", 26)
